@@ -419,6 +419,7 @@ impl<'a> FamVisitor for RVisit<'a> {
         let mut i = 0usize;
         let mut last_len: Option<usize> = None;
         let mut seen_max_final = 512 * 1024usize;
+        let mut refused_at: Option<usize> = None;
         let cap_check = |buf: &Vec<u8>, seen_max: usize, when: &str| -> Result<(), Violation> {
             // the frame buffer is the reader's own allocation: it may never exceed the configured maximum
             // (or the capacity of the buffer the caller handed in)
@@ -533,7 +534,10 @@ impl<'a> FamVisitor for RVisit<'a> {
                 }
                 (RRes::CleanEnd, Exp::CleanEnd) => {}
                 (RRes::Io(k), Exp::Eof) if *k == std::io::ErrorKind::UnexpectedEof => break 'drive,
-                (RRes::InvalidLen, Exp::InvalidLen) => break 'drive,
+                (RRes::InvalidLen, Exp::InvalidLen) => {
+                    refused_at = Some(max_len);
+                    break 'drive;
+                }
                 // ---- mismatches, attributed to the clause of the statement they break
                 (RRes::Io(k), _) if *k == std::io::ErrorKind::Interrupted => fail!("r_eintr_transparent", "{at}: Interrupted surfaced to the caller"),
                 (got, Exp::Eof) => fail!("r_truncation", "{at}: the stream ends inside frame {i} but read returned {}", clip(&format!("{got:?}"))),
@@ -559,6 +563,27 @@ impl<'a> FamVisitor for RVisit<'a> {
             let _ = calls_before;
             drop(c);
             i += 1;
+        }
+        if let Some(limit) = refused_at {
+            // The allocation sentence has no "until the first error" proviso.  What the reader returns after it refused a
+            // frame is not specified (this one is desynchronised by design) and is not judged, but whatever it does it must
+            // not allocate beyond the limit -- also when the caller touches the limit again before it goes on reading.
+            reader.set_max_len(limit as u32);
+            for k in 0..3 {
+                crate::alloc::arm();
+                let r = rclass(reader.read::<F::Of<'_>>());
+                let stats = crate::alloc::disarm();
+                if core.borrow().cap_hit {
+                    break;
+                }
+                let bound = seen_max_final.max(init_cap).max(64);
+                if stats.max_request > bound + 64 * bound.min(1 << 16) + 4096 {
+                    fail!("r_alloc_bound", "read #{k} after InvalidLen: a single allocation of {} bytes was requested; max_len is {limit}", stats.max_request);
+                }
+                if matches!(r, RRes::CleanEnd | RRes::Io(_)) {
+                    break;
+                }
+            }
         }
         let (_src, buf) = reader.into_parts();
         cap_check(&buf, seen_max_final, "end of run")
